@@ -128,8 +128,11 @@ class Model:
     def __init__(self):
         if not DRIVER.exists():
             raise SystemExit(f"model driver not built: {DRIVER} (run make -C {VERIF} setup)")
+        # the extracted list functions are not tail-recursive: give the
+        # driver an unlimited system stack
         self.p = subprocess.Popen(
-            [str(DRIVER)], stdin=subprocess.PIPE, stdout=subprocess.PIPE, bufsize=0
+            ["bash", "-c", f"ulimit -s unlimited 2>/dev/null; exec '{DRIVER}'"],
+            stdin=subprocess.PIPE, stdout=subprocess.PIPE, bufsize=0,
         )
 
     def run(self, case) -> object:
